@@ -96,6 +96,9 @@ def run_real_once(case, dedicated=True):
             raise ValueError('boom-comparator')
         if b.startswith('bare:'):
             return EqualityStatus[b[5:]]
+        shaped, verdict = S.shaped_verdict(b, r)
+        if shaped:
+            return verdict
         if b == 'different':
             return ComparatorResult(EqualityStatus.Different, 'cmp')
         return ComparatorResult(EqualityStatus.Equal, 'cmp')
@@ -182,13 +185,12 @@ def run_real_once(case, dedicated=True):
     except Stuck:
         dog['armed'] = False
         outcome = 'stuck'
-    except Exception:
+    except Exception as ex:      # pylint: disable=broad-except
         # once the watchdog has broken into a blocked Event.set(), the finally block of run_comparison finds the
         # event's condition half-updated and fails on its own (AssertionError inside notify)
-        if not dog['fired']:
-            raise
         dog['armed'] = False
-        outcome = 'stuck'
+        # otherwise: something left run_comparison that is neither the consumer's nor the id source's
+        outcome = 'stuck' if dog['fired'] else 'escaped:' + type(ex).__name__
     try:
         gc.collect()
     except Stuck:
